@@ -9,7 +9,7 @@ import re
 HERE = os.path.dirname(os.path.abspath(__file__))
 VERIF = os.path.dirname(HERE)
 REPO = os.environ.get('VERIF_REPO', '/repo')
-OUT = os.path.join(VERIF, 'lean', 'DtnVerif', 'Generated', 'Facts.lean')
+OUT = os.path.join(os.environ.get('VERIF_LEAN_DIR') or os.path.join(VERIF, 'lean'), 'DtnVerif', 'Generated', 'Facts.lean')
 
 
 class ExtractError(Exception):
